@@ -2192,6 +2192,14 @@ func main() {
 		recLim := &limSpec{MaxFile: 1 << 30, MaxTotal: 1 << 32, MaxCount: 1 << 20, MaxDepth: -1, Recursive: true}
 		runScenario(r, scenario{Kind: "round", Backend: be, Tree: fakeExt, Limits: recLim}, true)
 		runScenario(r, scenario{Kind: "round", Backend: be, Tree: nestedExt, Limits: recLim}, false)
+		// nested archives whose stem is "..", "" or ".": refused (malicious) resp. expanded into the holding directory
+		// under recursive limits; ordinary files otherwise
+		inner := []nodeSpec{d("nd", t0+1e9), t("nd/leaf", "leaf", t0+2e9), t("solo", "s", t0+3e9)}
+		for _, nm := range []string{"...Z", "sub/...zip", ".zip", "sub/..jar", "sub/.GZ"} {
+			tr := []nodeSpec{d("sub", t0+9e9), t("sub/keep", "k", t0), {Rel: nm, MTime: t0 + 5e9, Nested: inner}}
+			runScenario(r, scenario{Kind: "round", Backend: be, Tree: tr, Limits: recLim}, false)
+			runScenario(r, scenario{Kind: "round", Backend: be, Tree: tr}, true)
+		}
 		runScenario(r, scenario{Kind: "round", Backend: be, Tree: nestedExt}, false)
 		runScenario(r, scenario{Kind: "round", Backend: be, Tree: nestedExt, Limits: &limSpec{MaxFile: 1 << 30, MaxTotal: 1 << 32, MaxCount: 1 << 20, MaxDepth: 10}}, false)
 		for _, sp := range []string{"trailing", "inner-dot", "double-sep", "dotdot", "dot-trailing", "relative", "rel-dot"} {
